@@ -8,8 +8,7 @@ cd "$(dirname "$0")"
 V=$(pwd)
 mkdir -p build/ocaml build/harness
 cd coq
-ls theories/*/*.v | sort > /dev/null
-{ echo "-Q theories Snoopy"; cat theories.order; } > _CoqProject
+{ echo "-Q theories Snoopy"; find theories -name '*.v' | sort; } > _CoqProject
 coq_makefile -f _CoqProject -o Makefile.coq > /dev/null
 timeout 3000 make -f Makefile.coq -j16 2>&1 | tail -40
 test ${PIPESTATUS[0]} -eq 0
